@@ -217,16 +217,20 @@ def route(state, rs, tid):
             from exactpack.solvers.heat import PlanarSandwich, PlanarSandwichHot, PlanarSandwichHalf
             a1, b1, a2, b2 = kw["alpha1"], kw["beta1"], kw["alpha2"], kw["beta2"]
             common = dict(kappa=kw["kappa"], L=kw["L"], TL=kw["TL"], TR=kw["TR"], Nsum=100)
+            g1, g2 = kw.get("gamma1", 0.0), kw.get("gamma2", 0.0)
             if (a1, b1, a2, b2) == (1, 0, 1, 0):
-                sb = PlanarSandwich(TB=0.0, TT=0.0, **common)
-            elif (a1, b1, a2, b2) == (0, 1, 0, 1):
-                sb = PlanarSandwichHot(F=0.0, **common)
+                sb = PlanarSandwich(TB=g1, TT=g2, **common)
+            elif (a1, b1, a2, b2) == (0, 1, 0, 1) and g1 == g2:
+                sb = PlanarSandwichHot(F=g1, **common)
             elif (a1, b1, a2, b2) == (1, 0, 0, 1):
-                sb = PlanarSandwichHalf(TB=0.0, FT=0.0, **common)
+                sb = PlanarSandwichHalf(TB=g1, FT=g2, **common)
             else:
                 return [], 0
         elif r == "RodBC3=mirrorBC4":
+            # mirror image x -> L - x: end temperatures exchanged, the prescribed gradient changes sign
             k2 = dict(kw, alpha1=0, beta1=1, alpha2=1, beta2=0, TL=kw["TR"], TR=kw["TL"])
+            if "gamma1" in kw:
+                k2["gamma1"], k2["gamma2"] = -kw["gamma2"], kw["gamma1"]
             sb = G.cls_of("Rod1D")(**k2)
             ptsb = kw["L"] - pts
         elif r == "2D=3D":
